@@ -84,7 +84,7 @@ def gen_cases(ctx):
                 params = {'pool': pool, 'rep': sz['reps'], 'perturb': rng.randrange(1, 1 << 30), 'spin': rng.choice([0, 4])}
                 case.jobs.append(P.Job('%s_%s_%s_p%d' % (case.name, tag, v.name, pool), case, v, rows, params=params))
 
-    for f in [corpus.tc, corpus.funnel_rel, corpus.funnel_lat, corpus.sp_count, corpus.lat_many_keys]:
+    for f in [corpus.tc, corpus.funnel_rel, corpus.funnel_lat, corpus.sp_count, corpus.lat_many_keys, corpus.write_only_head]:
         rng = random.Random(ctx.rng.getrandbits(48))
         name, prog, input_rels, mk = f(rng)
         vs = [E.Variant('ser', prog, 'ascent'), E.Variant('par', prog, 'ascent_par'), E.Variant('run', prog, 'ascent_run'),
